@@ -405,11 +405,11 @@ func formatAppendBool(verb *formatVerb, buf *bytes.Buffer, arg cty.Value) error 
 		return fmt.Errorf("unsupported value for %q at %d: %s", verb.Raw, verb.Offset, err)
 	}
 
+	fmted := "false"
 	if arg.True() {
-		buf.WriteString("true")
-	} else {
-		buf.WriteString("false")
+		fmted = "true"
 	}
+	buf.WriteString(formatPadWidth(verb, fmted))
 	return nil
 }
 
